@@ -7,6 +7,7 @@ package engine
 import (
 	"errors"
 	"fmt"
+	"go/token"
 	"go/types"
 	"math"
 	"math/bits"
@@ -27,85 +28,85 @@ var externals = make(map[string]externalFn)
 // natives are pure functions over basic types, strings and slices of them,
 // called through real reflection when every argument is concrete.
 var natives = map[string]interface{}{
-	"strings.HasPrefix":    strings.HasPrefix,
-	"strings.HasSuffix":    strings.HasSuffix,
-	"strings.Contains":     strings.Contains,
-	"strings.ContainsRune": strings.ContainsRune,
-	"strings.ContainsAny":  strings.ContainsAny,
-	"strings.Index":        strings.Index,
-	"strings.IndexByte":    strings.IndexByte,
-	"strings.IndexRune":    strings.IndexRune,
-	"strings.IndexAny":     strings.IndexAny,
-	"strings.LastIndex":    strings.LastIndex,
-	"strings.LastIndexByte": strings.LastIndexByte,
-	"strings.Repeat":       strings.Repeat,
-	"strings.ToLower":      strings.ToLower,
-	"strings.ToUpper":      strings.ToUpper,
-	"strings.TrimSpace":    strings.TrimSpace,
-	"strings.Trim":         strings.Trim,
-	"strings.TrimLeft":     strings.TrimLeft,
-	"strings.TrimRight":    strings.TrimRight,
-	"strings.TrimPrefix":   strings.TrimPrefix,
-	"strings.TrimSuffix":   strings.TrimSuffix,
-	"strings.Split":        strings.Split,
-	"strings.SplitN":       strings.SplitN,
-	"strings.Join":         strings.Join,
-	"strings.Replace":      strings.Replace,
-	"strings.ReplaceAll":   strings.ReplaceAll,
-	"strings.Count":        strings.Count,
-	"strings.EqualFold":    strings.EqualFold,
-	"strings.Fields":       strings.Fields,
-	"strings.Title":        strings.Title,
-	"strings.Compare":      strings.Compare,
-	"strconv.ParseInt":     strconv.ParseInt,
-	"strconv.ParseUint":    strconv.ParseUint,
-	"strconv.ParseFloat":   strconv.ParseFloat,
-	"strconv.ParseBool":    strconv.ParseBool,
-	"strconv.Atoi":         strconv.Atoi,
-	"strconv.Itoa":         strconv.Itoa,
-	"strconv.FormatInt":    strconv.FormatInt,
-	"strconv.FormatUint":   strconv.FormatUint,
-	"strconv.FormatFloat":  strconv.FormatFloat,
-	"strconv.FormatBool":   strconv.FormatBool,
-	"strconv.Quote":        strconv.Quote,
-	"strconv.Unquote":      strconv.Unquote,
-	"unicode.IsLetter":     unicode.IsLetter,
-	"unicode.IsDigit":      unicode.IsDigit,
-	"unicode.IsSpace":      unicode.IsSpace,
-	"unicode.IsUpper":      unicode.IsUpper,
-	"unicode.IsLower":      unicode.IsLower,
-	"unicode.IsPunct":      unicode.IsPunct,
-	"unicode.IsControl":    unicode.IsControl,
-	"unicode.IsNumber":     unicode.IsNumber,
-	"unicode.IsPrint":      unicode.IsPrint,
-	"unicode.ToLower":      unicode.ToLower,
-	"unicode.ToUpper":      unicode.ToUpper,
-	"unicode/utf8.RuneLen":          utf8.RuneLen,
-	"unicode/utf8.ValidString":      utf8.ValidString,
+	"strings.HasPrefix":              strings.HasPrefix,
+	"strings.HasSuffix":              strings.HasSuffix,
+	"strings.Contains":               strings.Contains,
+	"strings.ContainsRune":           strings.ContainsRune,
+	"strings.ContainsAny":            strings.ContainsAny,
+	"strings.Index":                  strings.Index,
+	"strings.IndexByte":              strings.IndexByte,
+	"strings.IndexRune":              strings.IndexRune,
+	"strings.IndexAny":               strings.IndexAny,
+	"strings.LastIndex":              strings.LastIndex,
+	"strings.LastIndexByte":          strings.LastIndexByte,
+	"strings.Repeat":                 strings.Repeat,
+	"strings.ToLower":                strings.ToLower,
+	"strings.ToUpper":                strings.ToUpper,
+	"strings.TrimSpace":              strings.TrimSpace,
+	"strings.Trim":                   strings.Trim,
+	"strings.TrimLeft":               strings.TrimLeft,
+	"strings.TrimRight":              strings.TrimRight,
+	"strings.TrimPrefix":             strings.TrimPrefix,
+	"strings.TrimSuffix":             strings.TrimSuffix,
+	"strings.Split":                  strings.Split,
+	"strings.SplitN":                 strings.SplitN,
+	"strings.Join":                   strings.Join,
+	"strings.Replace":                strings.Replace,
+	"strings.ReplaceAll":             strings.ReplaceAll,
+	"strings.Count":                  strings.Count,
+	"strings.EqualFold":              strings.EqualFold,
+	"strings.Fields":                 strings.Fields,
+	"strings.Title":                  strings.Title,
+	"strings.Compare":                strings.Compare,
+	"strconv.ParseInt":               strconv.ParseInt,
+	"strconv.ParseUint":              strconv.ParseUint,
+	"strconv.ParseFloat":             strconv.ParseFloat,
+	"strconv.ParseBool":              strconv.ParseBool,
+	"strconv.Atoi":                   strconv.Atoi,
+	"strconv.Itoa":                   strconv.Itoa,
+	"strconv.FormatInt":              strconv.FormatInt,
+	"strconv.FormatUint":             strconv.FormatUint,
+	"strconv.FormatFloat":            strconv.FormatFloat,
+	"strconv.FormatBool":             strconv.FormatBool,
+	"strconv.Quote":                  strconv.Quote,
+	"strconv.Unquote":                strconv.Unquote,
+	"unicode.IsLetter":               unicode.IsLetter,
+	"unicode.IsDigit":                unicode.IsDigit,
+	"unicode.IsSpace":                unicode.IsSpace,
+	"unicode.IsUpper":                unicode.IsUpper,
+	"unicode.IsLower":                unicode.IsLower,
+	"unicode.IsPunct":                unicode.IsPunct,
+	"unicode.IsControl":              unicode.IsControl,
+	"unicode.IsNumber":               unicode.IsNumber,
+	"unicode.IsPrint":                unicode.IsPrint,
+	"unicode.ToLower":                unicode.ToLower,
+	"unicode.ToUpper":                unicode.ToUpper,
+	"unicode/utf8.RuneLen":           utf8.RuneLen,
+	"unicode/utf8.ValidString":       utf8.ValidString,
 	"unicode/utf8.RuneCountInString": utf8.RuneCountInString,
-	"unicode/utf8.ValidRune":        utf8.ValidRune,
-	"math.Abs":      math.Abs,
-	"math.Floor":    math.Floor,
-	"math.Ceil":     math.Ceil,
-	"math.Trunc":    math.Trunc,
-	"math.Sqrt":     math.Sqrt,
-	"math.Pow":      math.Pow,
-	"math.Mod":      math.Mod,
-	"math.Log":      math.Log,
-	"math.Exp":      math.Exp,
-	"math.Inf":      math.Inf,
-	"math.NaN":      math.NaN,
-	"math.IsInf":    math.IsInf,
-	"math.Signbit":  math.Signbit,
-	"math.Copysign": math.Copysign,
-	"math.Max":      math.Max,
-	"math.Min":      math.Min,
-	"math/bits.Len64":           bits.Len64,
-	"math/bits.LeadingZeros64":  bits.LeadingZeros64,
-	"math/bits.TrailingZeros64": bits.TrailingZeros64,
-	"math/bits.TrailingZeros":   bits.TrailingZeros,
-	"path/filepath.Base":        filepath.Base,
-	"path/filepath.Ext":         filepath.Ext,
+	"unicode/utf8.ValidRune":         utf8.ValidRune,
+	"math.Abs":                       math.Abs,
+	"math.Floor":                     math.Floor,
+	"math.Ceil":                      math.Ceil,
+	"math.Trunc":                     math.Trunc,
+	"math.Sqrt":                      math.Sqrt,
+	"math.Pow":                       math.Pow,
+	"math.Mod":                       math.Mod,
+	"math.Log":                       math.Log,
+	"math.Exp":                       math.Exp,
+	"math.Inf":                       math.Inf,
+	"math.NaN":                       math.NaN,
+	"math.IsInf":                     math.IsInf,
+	"math.Signbit":                   math.Signbit,
+	"math.Copysign":                  math.Copysign,
+	"math.Max":                       math.Max,
+	"math.Min":                       math.Min,
+	"math/bits.Len64":                bits.Len64,
+	"math/bits.LeadingZeros64":       bits.LeadingZeros64,
+	"math/bits.TrailingZeros64":      bits.TrailingZeros64,
+	"math/bits.TrailingZeros":        bits.TrailingZeros,
+	"path/filepath.Base":             filepath.Base,
+	"path/filepath.Ext":              filepath.Ext,
 }
 
 // std functions whose SSA body is interpreted when an argument is symbolic
@@ -461,8 +462,8 @@ func init() {
 			fr.e.schedPoint("Gosched")
 			return nil
 		},
-		"runtime.GC":          func(fr *frame, args []value) value { return nil },
-		"runtime.KeepAlive":   func(fr *frame, args []value) value { return nil },
+		"runtime.GC":           func(fr *frame, args []value) value { return nil },
+		"runtime.KeepAlive":    func(fr *frame, args []value) value { return nil },
 		"runtime.SetFinalizer": func(fr *frame, args []value) value { return nil },
 		"time.Sleep": func(fr *frame, args []value) value {
 			fr.e.schedPoint("Sleep")
@@ -582,8 +583,8 @@ func init() {
 		},
 		"internal/stringslite.Clone": func(fr *frame, args []value) value { return args[0] },
 		"strings.Clone":              func(fr *frame, args []value) value { return args[0] },
-		"os.ReadFile":        extReadFile,
-		"io/ioutil.ReadFile": extReadFile,
+		"os.ReadFile":                extReadFile,
+		"io/ioutil.ReadFile":         extReadFile,
 		"errors.New": func(fr *frame, args []value) value {
 			if s, ok := args[0].(string); ok {
 				return fr.e.newError(s)
@@ -592,6 +593,34 @@ func init() {
 			return iface{t: fr.e.P.errorString, v: &cell}
 		},
 		// sync
+		// sync/atomic on integers: plain loads and stores of the cell (one goroutine
+		// runs at a time; the call is a schedule point like a lock operation is not
+		// needed for the frame argument) - through the write barrier, so a counter
+		// kept in a package-level variable is seen as the shared state it is
+		"sync/atomic.AddInt64":   func(fr *frame, args []value) value { return fr.e.atomicAdd(args, types.Typ[types.Int64]) },
+		"sync/atomic.AddInt32":   func(fr *frame, args []value) value { return fr.e.atomicAdd(args, types.Typ[types.Int32]) },
+		"sync/atomic.AddUint64":  func(fr *frame, args []value) value { return fr.e.atomicAdd(args, types.Typ[types.Uint64]) },
+		"sync/atomic.AddUint32":  func(fr *frame, args []value) value { return fr.e.atomicAdd(args, types.Typ[types.Uint32]) },
+		"sync/atomic.LoadInt64":  func(fr *frame, args []value) value { return *args[0].(*value) },
+		"sync/atomic.LoadInt32":  func(fr *frame, args []value) value { return *args[0].(*value) },
+		"sync/atomic.LoadUint64": func(fr *frame, args []value) value { return *args[0].(*value) },
+		"sync/atomic.LoadUint32": func(fr *frame, args []value) value { return *args[0].(*value) },
+		"sync/atomic.StoreInt64": func(fr *frame, args []value) value {
+			fr.e.store(types.Typ[types.Int64], args[0].(*value), args[1])
+			return nil
+		},
+		"sync/atomic.StoreInt32": func(fr *frame, args []value) value {
+			fr.e.store(types.Typ[types.Int32], args[0].(*value), args[1])
+			return nil
+		},
+		"sync/atomic.StoreUint64": func(fr *frame, args []value) value {
+			fr.e.store(types.Typ[types.Uint64], args[0].(*value), args[1])
+			return nil
+		},
+		"sync/atomic.StoreUint32": func(fr *frame, args []value) value {
+			fr.e.store(types.Typ[types.Uint32], args[0].(*value), args[1])
+			return nil
+		},
 		"(*sync.Mutex).Lock":      func(fr *frame, args []value) value { fr.e.mutexLock(args[0].(*value)); return nil },
 		"(*sync.Mutex).Unlock":    func(fr *frame, args []value) value { fr.e.mutexUnlock(args[0].(*value)); return nil },
 		"(*sync.RWMutex).Lock":    func(fr *frame, args []value) value { fr.e.mutexLock(args[0].(*value)); return nil },
@@ -1021,4 +1050,14 @@ func (e *Engine) syncMapWrite(p *value) {
 	if e.frozen != nil {
 		e.checkFrozen(p)
 	}
+}
+
+func (e *Engine) atomicAdd(args []value, t types.Type) value {
+	p := args[0].(*value)
+	if p == nil {
+		panic(rtPanic{"runtime error: invalid memory address or nil pointer dereference"})
+	}
+	n := e.binop(token.ADD, t, *p, args[1])
+	e.store(t, p, n)
+	return n
 }
